@@ -206,8 +206,57 @@ func solveFor(T, k, E *Term) *Term {
 	return nil
 }
 
+// matchIte: T == E where, after cancelling equal summands, T is an ite that mentions k and E is a
+// closed ite of the same shape (a ring-buffer index `ite(h+k >= n, h+k-n, h+k)` against
+// `ite(h+X >= n, h+X-n, h+X)`): solve branch against branch, which gives k := X directly instead
+// of an expression around E's ite.
+func matchIte(T, k, E *Term) []*Term {
+	d := newLin()
+	d.addTerm(T, big.NewInt(1))
+	d.addTerm(E, big.NewInt(-1))
+	if d.k.Sign() != 0 {
+		return nil
+	}
+	var a, b *Term
+	for _, id := range sortedAtomIDs(d.atom) {
+		c := d.coef[id]
+		if c == nil || c.Sign() == 0 {
+			continue
+		}
+		at := d.atom[id]
+		isIte := at.Op == "app" && at.Name == "ite" && len(at.Args) == 3
+		switch {
+		case isIte && at.open && mentions(at, k) && c.Cmp(big.NewInt(1)) == 0 && a == nil:
+			a = at
+		case isIte && !at.open && c.Cmp(big.NewInt(-1)) == 0 && b == nil:
+			b = at
+		default:
+			return nil
+		}
+	}
+	if a == nil || b == nil {
+		return nil
+	}
+	var out []*Term
+	seen := map[int]bool{}
+	for i := 1; i <= 2; i++ {
+		for _, r := range solveAll(a.Args[i], k, b.Args[i]) {
+			if r != nil && !r.open && !seen[r.id] {
+				seen[r.id] = true
+				out = append(out, r)
+			}
+		}
+	}
+	return out
+}
+
 // solveAll: candidates for k from T == E, looking through ite branches and n-ary sums.
 func solveAll(T, k, E *Term) []*Term {
+	if T.Sort == "Int" && E.Sort == "Int" && T.Op == "app" {
+		if r := matchIte(T, k, E); len(r) > 0 {
+			return r
+		}
+	}
 	if T.Op == "app" && T.Name == "ite" && len(T.Args) == 3 {
 		return append(solveAll(T.Args[1], k, E), solveAll(T.Args[2], k, E)...)
 	}
